@@ -409,19 +409,32 @@ func expectedLike(v ssa.Value, seen map[ssa.Value]bool) bool {
 		return true
 	}
 	seen[v] = true
+	isOne := func(v ssa.Value) bool {
+		c, ok := v.(*ssa.Const)
+		return ok && c.Value != nil && constant.Compare(c.Value, token.EQL, constant.MakeInt64(1))
+	}
 	switch x := v.(type) {
 	case *ssa.Phi:
+		// a counter that starts at 0 and is incremented (once per request handed to a node: C02-T4
+		// checks the counting) is the expected number just as len(c) minus the skipped nodes is
+		countsUp := false
 		for _, e := range x.Edges {
+			if b, ok := e.(*ssa.BinOp); ok && b.Op == token.ADD && isOne(b.Y) {
+				countsUp = true
+			}
+		}
+		for _, e := range x.Edges {
+			if c, ok := e.(*ssa.Const); ok && countsUp && c.Value != nil && constant.Sign(c.Value) == 0 {
+				continue
+			}
 			if !expectedLike(e, seen) {
 				return false
 			}
 		}
 		return true
 	case *ssa.BinOp:
-		if x.Op == token.SUB {
-			if c, ok := x.Y.(*ssa.Const); ok && c.Value != nil && constant.Compare(c.Value, token.EQL, constant.MakeInt64(1)) {
-				return expectedLike(x.X, seen)
-			}
+		if (x.Op == token.SUB || x.Op == token.ADD) && isOne(x.Y) {
+			return expectedLike(x.X, seen)
 		}
 		return false
 	case *ssa.Call:
